@@ -47,7 +47,10 @@ def name_of_inputs(inputs):
                    inputs['decoder']['parameters'])
 
 
-def build_sim(name, foreign_kind, compressed):
+_SHARED = {}
+
+
+def build_sim(name, foreign_kind, compressed, shared_decoder=False):
     rate = RATES[name]
     code = Toric2DCode(2, 2)
     kw = dict(NOISE_KW)
@@ -61,7 +64,11 @@ def build_sim(name, foreign_kind, compressed):
         elif foreign_kind == 'decoder':
             dkw = {'error_type': 'X'}
     em = PauliErrorModel(1 / 3, 1 / 3, 1 / 3, deformation_name='XZZX', deformation_kwargs=kw)
-    dec = MatchingDecoder(code, em, rate, **dkw)
+    if shared_decoder and not dkw and (code.size == (2, 2)) and kw == NOISE_KW:
+        # one fixed-prior decoder object serves every simulation of the batch
+        dec = _SHARED.setdefault('dec', MatchingDecoder(code, em, RATES['s1']))
+    else:
+        dec = MatchingDecoder(code, em, rate, **dkw)
     return DirectSimulation(code, em, dec, rate, verbose=False, compress=compressed)
 
 
@@ -315,7 +322,8 @@ def run_session(jobs):
         batch = BatchSimulation(first['out'], save_frequency=first['savefreq'],
                                 update_frequency=1000, verbose=False)
         for name in first['spec']:
-            batch.append(build_sim(name, first.get('foreign', 'rate'), first['compressed']))
+            batch.append(build_sim(name, first.get('foreign', 'rate'), first['compressed'],
+                                   first.get('shared_decoder', False)))
     for k, job in enumerate(jobs):
         if k > 0:
             # a new run on the same object: new fault plan, counters restart
